@@ -316,3 +316,24 @@ func ZZVerifC17LineEnd() {
 	}
 	nd.Reach("C17/lineend-end")
 }
+
+// ZZVerifC17Split: the string wrapper SplitArguments is the reader applied to
+// the string - for every byte string the same words, the same end-of-input
+// flag and the same error-ness (the wrapper is the entry InjectString and
+// RunString use).
+func ZZVerifC17Split() {
+	s := nd.BytesUpTo("s", nd.Param("SN", 3))
+	a1, e1, err1 := SplitArguments(string(s))
+	a2, e2, err2 := ReadArguments(&zzByteReader{b: s})
+	nd.Assert((err1 == nil) == (err2 == nil), "C17/split-same-error")
+	if err1 == nil && err2 == nil {
+		nd.Assert(e1 == e2, "C17/split-same-eof")
+		nd.Assert(len(a1) == len(a2), "C17/split-same-words-count")
+		if len(a1) == len(a2) {
+			for i := range a1 {
+				nd.Assert(a1[i] == a2[i], "C17/split-same-words-bytes")
+			}
+		}
+	}
+	nd.Reach("C17/split-end")
+}
